@@ -137,6 +137,8 @@ class GroupWorld(ClientWorld):
             for v in op[2]:
                 log.append_plain(b"late", v.encode("latin-1"), timestamp=7)
             self.cluster.wake_fetches((t, int(p)))
+        elif op[0] == "add_partition":
+            self.cluster.add_partition(op[1], op[2], op[3])
         else:
             raise ValueError(op)
 
@@ -235,6 +237,8 @@ class GroupWorld(ClientWorld):
             self.state = "joining"
             self.assigned = None
         elif api == rk.SYNC_GROUP:
+            if self.PROP == "C15" and body["assignments"]:
+                self.c15_sync(body)
             self.sync_outstanding += 1
             if c16 and (self.sync_outstanding > 1 or self.join_outstanding):
                 self.viol("exchange", "second-join-or-sync-in-flight",
@@ -294,6 +298,51 @@ class GroupWorld(ClientWorld):
                           "an OffsetCommit was written after the JoinGroup of the next generation")
 
     last_assigned = None
+    parts_at_join = None
+    join_members = None
+
+    def c15_sync(self, body):
+        """The leader's SyncGroup request of this generation: every partition that existed when the leader was
+        elected is given to exactly one subscriber; nothing that does not exist (now) is handed out."""
+        members = self.join_members or {}
+        if body["generation"] != self.generation:
+            return  # judged by C16
+        owners = {}
+        got_members = [a["member"] for a in body["assignments"]]
+        if sorted(got_members) != sorted(members):
+            self.viol("in-situ-assignment", "sync-request-members",
+                      "SyncGroup assigns to %r, the JoinGroup answer listed %r" % (got_members, sorted(members)))
+        for a in body["assignments"]:
+            try:
+                dec = rk.ASSIGNMENT.dec(rk.Reader(a["assignment"]))
+            except rk.ParseError as e:
+                self.viol("in-situ-assignment", "assignment-blob-does-not-parse", "%s: %s" % (a["member"], e))
+                continue
+            for t in dec["topics"]:
+                for pn in t["partitions"]:
+                    owners.setdefault((t["topic"], pn), []).append(a["member"])
+        subscribed = sorted(set(t for ts in members.values() for t in ts))
+        now = {t: list(self.cluster.partitions(t)) for t in self.cluster.topics()}
+        for t in subscribed:
+            for pn in (self.parts_at_join or {}).get(t, []):
+                o = owners.get((t, pn), [])
+                if len(o) != 1:
+                    self.viol("in-situ-assignment", "partition-owned-by-%s" % ("nobody" if not o else "several"),
+                              "generation %r: partition %s/%d (existing when the leader was elected: %r) is assigned "
+                              "to %r; request assigns %r" % (self.generation, t, pn, self.parts_at_join, o,
+                                                            sorted(owners)))
+        for (t, pn), o in sorted(owners.items()):
+            if pn not in now.get(t, []):
+                self.viol("in-situ-assignment", "phantom-partition",
+                          "generation %r: %s/%d assigned to %r but the topic has partitions %r" % (
+                              self.generation, t, pn, o, now.get(t)))
+            for m in o:
+                if t not in members.get(m, []):
+                    self.viol("in-situ-assignment", "partition-to-non-subscriber",
+                              "%s/%d assigned to %r which subscribed to %r" % (t, pn, m, members.get(m)))
+            if len(o) > 1:
+                self.viol("in-situ-assignment", "partition-owned-by-several", "%s/%d assigned to %r" % (t, pn, o))
+        self.c15_syncs = getattr(self, "c15_syncs", 0) + 1
 
     def conn_open(self, cid):
         return self.net.conns[cid].open
@@ -320,6 +369,14 @@ class GroupWorld(ClientWorld):
                 self.member = ans["member"]
                 self.generation = ans["generation"]
                 self.evicted = False
+                # C15 in situ: what the leader has to distribute = the partitions that exist when it is elected
+                self.parts_at_join = {t: list(self.cluster.partitions(t)) for t in self.cluster.topics()}
+                self.join_members = {}
+                for m in ans["members"]:
+                    try:
+                        self.join_members[m["member"]] = list(rk.SUBSCRIPTION.dec(rk.Reader(m["metadata"]))["topics"])
+                    except rk.ParseError:
+                        self.join_members[m["member"]] = []
             elif api == rk.SYNC_GROUP and ans["error"] == 0:
                 a = rk.ASSIGNMENT.dec(rk.Reader(ans["assignment"]))
                 self.assigned = {t["topic"]: list(t["partitions"]) for t in a["topics"]}
@@ -435,4 +492,6 @@ class GroupWorld(ClientWorld):
                 None if self.stop_rec is None else self.stop_rec[1], len(self.rejoin_timers))
 
     def nontrivial(self):
+        if self.PROP == "C15":
+            return getattr(self, "c15_syncs", 0) >= 2
         return self.reacted or self.stop_rec is not None
